@@ -118,9 +118,11 @@ def _law(g):
     else:
         from pylife.materiallaws.notch_approximation_law_seegerbeste import SeegerBeste as cls
     _, E, K, n, rm = g["mat"]
-    if g.get("via") != "setters":
+    via = g.get("via", "fresh")
+    if via == "fresh":
         return cls(E, K, n, g["K_p"])
-    law = cls(E, 2.0 * K, n, g["K_p"] + 1.5)
+    # one parameter at a time, so that a cache keyed on the *other* parameter is not invalidated by accident
+    law = cls(E, 2.0 * K, n, g["K_p"]) if via == "set-K" else cls(E, K, n, g["K_p"] + 1.5)
     import warnings
     with warnings.catch_warnings():
         warnings.simplefilter("ignore")
@@ -130,8 +132,10 @@ def _law(g):
                     getattr(law, meth)(a)
                 except Exception:  # noqa: BLE001   (the warm-up is not judged)
                     pass
-    law.K = K
-    law.K_p = g["K_p"]
+    if via == "set-K":
+        law.K = K
+    else:
+        law.K_p = g["K_p"]
     return law
 
 
@@ -249,7 +253,7 @@ class Ref:
 
 
 def _key(g, meth, clause):
-    return "C06/%s/%s/%s%s" % (g["law"], meth, clause, "/after-setters" if g.get("via") == "setters" else "")
+    return "C06/%s/%s/%s%s" % (g["law"], meth, clause, "/after-setters" if g.get("via", "fresh") != "fresh" else "")
 
 
 def _tag(R, L):
@@ -588,7 +592,7 @@ def run_shard(shard):
         run_gross(shard, acc)
         return acc
     for T in shard["tolerances"]:
-        for branch, via in [(b, v) for b in BRANCHES for v in ("fresh", "setters")]:
+        for branch, via in [(b, v) for b in BRANCHES for v in ("fresh", "set-K", "set-Kp")]:
             g = {"law": shard["law"], "mat": shard["mat"], "K_p": shard["K_p"], "factors": shard["factors"], "T": T, "branch": branch, "via": via}
             law = _law(g)
             R = Ref(g)
